@@ -1,15 +1,151 @@
-// Package c04: user-code failures are contained.  Enumerates EVERY single fault point (each resolver call
-// and each directive call taken from the invocation log) x {error, panic} for every operation, plus random
-// multi-fault sets, on probe servers with worker_limit 0, 1 and 2; the probe process must survive
-// (a crash is a direct finding), the recover hook must be called once per panic, and the response must
-// be the specified one.
+// Package c04: user-code failures are contained.  The exhaustive single-fault enumeration over the operation
+// corpus is the C01 engine in single-fault mode (compared with the model); this file adds the fault sites the
+// outcome-tree model does not carry - a panic or error while an ARGUMENT is unmarshalled (custom scalar), and
+// faults inside one EVENT of a subscription - observed directly: one error at the field's path, the recover
+// hook once per panic, the resolver not invoked, the other events untouched.
 package c04
 
 import (
+	"encoding/json"
+	"fmt"
+	"strings"
+
 	"verifharness/engines/c01"
 	"verifharness/engines/xeng"
 	"verifharness/gen"
 )
+
+type respJSON struct {
+	Data   json.RawMessage `json:"data"`
+	Errors []struct {
+		Message string `json:"message"`
+		Path    []any  `json:"path"`
+	} `json:"errors"`
+}
+
+func extra(prop string, probes []xeng.Probe, meta *gen.Meta) error {
+	if prop != "C04" {
+		return nil
+	}
+	type expect struct {
+		name     string
+		c        xeng.Case
+		data     string // expected data of the single response ("" = not checked)
+		nerr     int
+		recovers int
+		noCall   string // a resolver path that must not be invoked
+	}
+	argCases := []expect{
+		{name: "scalar unmarshaler panics (literal)", c: xeng.Case{Query: `{ frag(v: "boom") scalar }`}, data: `{"frag":null,"scalar":"scalar"}`, nerr: 1, recovers: 1, noCall: "frag"},
+		{name: "scalar unmarshaler returns an error (literal)", c: xeng.Case{Query: `{ frag(v: "bad") scalar }`}, data: `{"frag":null,"scalar":"scalar"}`, nerr: 1, recovers: 0, noCall: "frag"},
+		{name: "scalar unmarshaler panics inside a list argument", c: xeng.Case{Query: `{ fragList(vs: ["ok", "boom"]) scalar }`}, data: `{"fragList":null,"scalar":"scalar"}`, nerr: 1, recovers: 1, noCall: "fragList"},
+		{name: "scalar unmarshaler panics (variable)", c: xeng.Case{Query: `query($v: Fragile) { frag(v: $v) scalar a { a1 } }`, Variables: map[string]any{"v": "boom"}}, data: `{"frag":null,"scalar":"scalar","a":{"a1":"a1"}}`, nerr: 1, recovers: 1, noCall: "frag"},
+		{name: "scalar unmarshaler succeeds", c: xeng.Case{Query: `{ frag(v: "fine") scalar }`}, data: `{"frag":"frag","scalar":"scalar"}`, nerr: 0, recovers: 0},
+	}
+	n := 0
+	for _, p := range probes {
+		var cases []xeng.Case
+		for i, e := range argCases {
+			c := e.c
+			c.ID = i
+			c.Oracle = xeng.NewOracle()
+			cases = append(cases, c)
+		}
+		// a fault inside the second of three subscription events, as an error and as a panic
+		for k, kind := range []string{"error", "panic"} {
+			o := xeng.NewOracle()
+			o.Fields["tickA"] = xeng.FieldPlan{Emit: 3}
+			o.Fields["tickA.a1"] = xeng.FieldPlan{O: kind, Tag: "ev", Nth: 2}
+			cases = append(cases, xeng.Case{ID: len(argCases) + k, Query: `subscription { tickA { a1 name } }`, Oracle: o, TimeoutMs: 3000})
+		}
+		results, err := xeng.RunAll(p.Built.Bin, cases)
+		if err != nil {
+			return err
+		}
+		report := func(sig, what string, c xeng.Case, res xeng.Result) {
+			var rs []string
+			for _, r := range res.Responses {
+				rs = append(rs, string(r))
+			}
+			meta.Direct = append(meta.Direct, gen.DirectFinding{Signature: sig, What: what,
+				Replay: map[string]any{"config": p.Cfg.Name, "query": c.Query, "variables": c.Variables, "oracle": c.Oracle, "responses": rs, "recovers": res.Recovers, "log": res.Log}})
+		}
+		for i, e := range argCases {
+			res := results[i]
+			n++
+			if res.Crashed || res.Hang || len(res.Responses) != 1 {
+				report("argument-fault-not-contained", e.name+": the probe crashed, hung or did not answer once", cases[i], res)
+				continue
+			}
+			var rj respJSON
+			_ = json.Unmarshal(res.Responses[0], &rj)
+			var problems []string
+			if e.data != "" && string(rj.Data) != e.data {
+				problems = append(problems, "data "+string(rj.Data)+" (expected "+e.data+")")
+			}
+			if len(rj.Errors) != e.nerr {
+				problems = append(problems, fmt.Sprintf("%d errors (expected %d)", len(rj.Errors), e.nerr))
+			}
+			for _, er := range rj.Errors {
+				if len(er.Path) == 0 || fmt.Sprint(er.Path[0]) != e.noCall {
+					problems = append(problems, fmt.Sprintf("error path %v does not start at the field", er.Path))
+				}
+			}
+			if res.Recovers != e.recovers {
+				problems = append(problems, fmt.Sprintf("recover hook ran %d times (expected %d)", res.Recovers, e.recovers))
+			}
+			for _, l := range res.Log {
+				if e.noCall != "" && l[0] == "r" && l[1] == e.noCall {
+					problems = append(problems, "the resolver was invoked although its argument could not be unmarshalled")
+				}
+			}
+			if len(problems) > 0 {
+				report("argument-fault-not-contained", e.name+": "+strings.Join(problems, "; "), cases[i], res)
+			}
+		}
+		for k, kind := range []string{"error", "panic"} {
+			i := len(argCases) + k
+			res := results[i]
+			n++
+			if res.Crashed || res.Hang || len(res.Responses) != 3 {
+				report("subscription-event-fault-not-contained", fmt.Sprintf("a resolver %s in the second of three subscription events: %d responses (crashed=%v hang=%v)", kind, len(res.Responses), res.Crashed, res.Hang), cases[i], res)
+				continue
+			}
+			var problems []string
+			for j, raw := range res.Responses {
+				var rj respJSON
+				_ = json.Unmarshal(raw, &rj)
+				want := 0
+				if j == 1 {
+					want = 1
+				}
+				if len(rj.Errors) != want {
+					problems = append(problems, fmt.Sprintf("event %d carries %d errors (expected %d)", j+1, len(rj.Errors), want))
+				}
+				for _, er := range rj.Errors {
+					if !strings.HasSuffix(er.Message, fmt.Sprintf("#%d", j+1)) {
+						problems = append(problems, fmt.Sprintf("event %d carries an error of another event: %s", j+1, er.Message))
+					}
+				}
+				if j != 1 && !strings.Contains(string(rj.Data), `"a1":"a1"`) {
+					problems = append(problems, fmt.Sprintf("event %d lost its data: %s", j+1, string(rj.Data)))
+				}
+			}
+			wantRec := 0
+			if kind == "panic" {
+				wantRec = 1
+			}
+			if res.Recovers != wantRec {
+				problems = append(problems, fmt.Sprintf("recover hook ran %d times (expected %d)", res.Recovers, wantRec))
+			}
+			if len(problems) > 0 {
+				report("subscription-event-fault-not-contained", "a resolver "+kind+" in the second of three subscription events: "+strings.Join(problems, "; "), cases[i], res)
+			}
+		}
+	}
+	meta.Notes = append(meta.Notes, fmt.Sprintf("%d direct observations of faults at argument unmarshalers (custom scalar: error, panic, inside a list, through a variable) and inside one event of a three-event subscription, on every probe configuration", n))
+	return nil
+}
 
 func Run(c *gen.Ctx) error {
 	cfgs := []xeng.Config{xeng.QuickConfigs[0], xeng.QuickConfigs[1], xeng.ThoroughConfigs[2]}
@@ -18,5 +154,7 @@ func Run(c *gen.Ctx) error {
 		cfgs = xeng.ThoroughConfigs
 		nops, perOp = 150, 4
 	}
-	return c01.RunWith(c, "C04", cfgs, nops, perOp, true)
+	c01.ExtraChecks = extra
+	defer func() { c01.ExtraChecks = nil }()
+	return c01.RunFull(c, "C04", cfgs, nops, perOp, true, false)
 }
